@@ -15,7 +15,7 @@ try {
 }
 console.log("LOADED");
 function canon(v) {
-  if (v === undefined) return "null"; // a hole in an array serialises as null
+  if (v === undefined) return "undefined"; // not a JSON value: the client would hand it to the application
   if (v === null || typeof v !== "object") return JSON.stringify(v);
   if (Array.isArray(v)) {
     const parts = [];
